@@ -18,6 +18,7 @@ type modelState struct {
 	assumptions      map[string]bool
 	symbolicMapOrder bool
 	manualClock      bool
+	preemptive       bool
 	expectPanic      []string
 	observe          []string
 	observeVals      []obsEntry
@@ -308,6 +309,15 @@ func registerAPIModels() {
 		it.ex.assume(mkAnd(bvCmp("bvsge", d, mkInt(0)), bvCmp("bvsle", d, max)))
 		it.mstate.lastNow = bvBin("bvadd", it.clockTerm(), d)
 		return d
+	}
+	// verifQuiesce() int: let all other goroutines run until none can; returns how many
+	// are still alive (blocked).
+	apiModels["verifPreemptive"] = func(it *Interp, fr *frame, fn *ssa.Function, args []Value) Value {
+		it.mstate.preemptive = args[0].(*Term).isTrue()
+		return nil
+	}
+	apiModels["verifQuiesce"] = func(it *Interp, fr *frame, fn *ssa.Function, args []Value) Value {
+		return mkInt(int64(it.quiesce(fr)))
 	}
 	apiModels["verifParam"] = func(it *Interp, fr *frame, fn *ssa.Function, args []Value) Value {
 		name := argStr(args[0])
